@@ -32,36 +32,12 @@ fn cls(e: &ArchiveError) -> &'static str {
 
 /// Characters of the executable sub-codec `sjisSub` (Codec.lean).
 fn in_alphabet(c: char) -> bool {
-    let u = c as u32;
-    (u >= 1 && u < 0x80)
-        || (0xFF61..=0xFF9F).contains(&u)
-        || (0x3041..=0x3093).contains(&u)
-        || (0x30A1..=0x30F6).contains(&u)
+    crate::subcodec::in_alphabet(c)
 }
 
 /// Shift-JIS bytes of a string of the sub-alphabet (mirror of `Sjis.encCp`).
 fn sjis_sub(s: &str) -> Vec<u8> {
-    let mut out = Vec::new();
-    for c in s.chars() {
-        let u = c as u32;
-        if u < 0x80 {
-            out.push(u as u8);
-        } else if (0xFF61..=0xFF9F).contains(&u) {
-            out.push((u - 0xFF61 + 0xA1) as u8);
-        } else if (0x3041..=0x3093).contains(&u) {
-            out.push(0x82);
-            out.push((0x9F + (u - 0x3041)) as u8);
-        } else if (0x30A1..=0x30DF).contains(&u) {
-            out.push(0x83);
-            out.push((0x40 + (u - 0x30A1)) as u8);
-        } else if (0x30E0..=0x30F6).contains(&u) {
-            out.push(0x83);
-            out.push((0x80 + (u - 0x30E0)) as u8);
-        } else {
-            panic!("not in alphabet");
-        }
-    }
-    out
+    crate::subcodec::enc(s).expect("not in alphabet")
 }
 
 /// A decoded c-string is printed only when every character lies in the sub-alphabet; otherwise
